@@ -1,0 +1,28 @@
+//go:build verif
+
+package ugo
+
+import "sync/atomic"
+
+// Verification hook H2 (build tag `verif` only): named synchronisation points.
+// A test harness installs a callback with VerifSetSyncHook and may block inside
+// it to hold the calling goroutine at the named point, which makes a chosen
+// interleaving of Run / Abort / Invoke / Eval.run deterministic.
+
+var verifSyncHook atomic.Pointer[func(name string)]
+
+// VerifSetSyncHook installs (or, with nil, removes) the callback invoked at every
+// named synchronisation point.
+func VerifSetSyncHook(f func(name string)) {
+	if f == nil {
+		verifSyncHook.Store(nil)
+		return
+	}
+	verifSyncHook.Store(&f)
+}
+
+func verifSync(name string) {
+	if f := verifSyncHook.Load(); f != nil {
+		(*f)(name)
+	}
+}
